@@ -29,18 +29,67 @@ private theorem Paired.get {α β : Type} {R : α → β → Prop} : ∀ {l1 : L
   | [], _, _, _, h1, _ => by simp at h1
   | _ :: _, [], _, _, _, h2 => by simp at h2
 
+/-- The cascade gives the margin box `kw` of a page of type `pt` a `content` other than `normal` / `none`. -/
+def HasContent (d : Doc) (pt : PageType) (kw : String) : Prop :=
+  ∃ items w, (addPageDeclarations d.rules pt kw).get "content" = some (.content (some items), w)
+
+private theorem mapM_ok_mem {α β : Type} (f : α → Except PyErr β) :
+    ∀ (l : List α) (r : List β), l.mapM f = .ok r → ∀ y ∈ r, ∃ x ∈ l, f x = .ok y := by
+  intro l
+  induction l with
+  | nil => intro r h y hy; simp [pure, Except.pure] at h; subst h; simp at hy
+  | cons a as ih =>
+    intro r h y hy
+    rw [List.mapM_cons] at h
+    simp only [bind, Except.bind, pure, Except.pure] at h
+    split at h
+    · cases h
+    · rename_i b hb
+      split at h
+      · cases h
+      · rename_i bs hbs
+        simp only [Except.ok.injEq] at h; subst h
+        rcases List.mem_cons.mp hy with rfl | hy
+        · exact ⟨a, by simp, hb⟩
+        · obtain ⟨x, hx, hfx⟩ := ih bs hbs y hy
+          exact ⟨x, by simp [hx], hfx⟩
+
+private theorem marginStyle_spec (d : Doc) (st run : Strings) (pt : PageType) (n : Nat) (secs : List Section) (cs : CState)
+    (kw : String) (ms : MStyle) (ws : List String) (h : marginStyle d st run pt n secs cs kw = .ok (ms, ws)) :
+    ms.kw = kw ∧ (ms.generated = true → HasContent d pt kw) := by
+  unfold marginStyle at h
+  simp only [bind, Except.bind, pure, Except.pure] at h
+  split at h
+  · simp only [Except.ok.injEq, Prod.mk.injEq] at h
+    obtain ⟨rfl, _⟩ := h
+    exact ⟨rfl, fun hg => by simp at hg⟩
+  · rename_i items hitems
+    split at h
+    · cases h
+    · split at h
+      · cases h
+      · simp only [Except.ok.injEq, Prod.mk.injEq] at h
+        obtain ⟨rfl, _⟩ := h
+        refine ⟨rfl, fun _ => ?_⟩
+        split at hitems
+        · rename_i x w hget
+          subst hitems
+          exact ⟨items, w, hget⟩
+        · cases hitems
 /-- The clamp `height = max(min(height, max_height), min_height)` of `block_container_layout` on a margin box. -/
 def clampHeight (q : Placed) : Placed := { q with height := max q.height 0 }
 
 /-- What one output of `render` is, relative to the page it was made from. -/
-private def PageOutOf (total : Nat) (p : (PageHead × List Section) × PageType × Cascaded Val × CState) (o : PageOut) : Prop :=
+private def PageOutOf (d : Doc) (total : Nat) (p : (PageHead × List Section) × PageType × Cascaded Val × CState)
+    (o : PageOut) : Prop :=
   o.head = p.1.1 ∧ o.box = makePageBox (pageStyle p.2.2.1) ∧ o.counters = setPages p.2.2.2 total ∧
   o.bleed = pageBleed p.2.2.1 ∧ o.groups = p.2.1.groups ∧
-  ∃ styles placed, makeMarginBoxes o.box.geom styles = .ok placed ∧ o.margin.map (·.1) = placed.map clampHeight
+  ∃ styles placed, (∀ s ∈ styles, s.generated = true → HasContent d p.2.1 s.kw) ∧
+    makeMarginBoxes o.box.geom styles = .ok placed ∧ o.margin.map (·.1) = placed.map clampHeight
 
 private theorem render_go_spec (d : Doc) (total : Nat) (st run : Strings)
     (ps : List ((PageHead × List Section) × PageType × Cascaded Val × CState)) (n : Nat) (outs : List PageOut)
-    (h : render.go d total st run ps n = .ok outs) : Paired (PageOutOf total) ps outs := by
+    (h : render.go d total st run ps n = .ok outs) : Paired (PageOutOf d total) ps outs := by
   induction ps generalizing n outs with
   | nil =>
     unfold render.go at h
@@ -52,7 +101,7 @@ private theorem render_go_spec (d : Doc) (total : Nat) (st run : Strings)
     simp only [bind, Except.bind, pure, Except.pure] at h
     split at h
     · cases h
-    · rename_i styled _
+    · rename_i styled hstyled
       split at h
       · cases h
       · rename_i placed hplaced
@@ -63,8 +112,14 @@ private theorem render_go_spec (d : Doc) (total : Nat) (st run : Strings)
           · rename_i tail htail
             simp only [Except.ok.injEq] at h
             subst h
-            refine ⟨⟨rfl, rfl, rfl, rfl, rfl, _, placed, hplaced, ?_⟩, ih _ _ htail⟩
-            simp [List.map_map, Function.comp_def, clampHeight]
+            refine ⟨⟨rfl, rfl, rfl, rfl, rfl, _, placed, ?_, hplaced, ?_⟩, ih _ _ htail⟩
+            · intro s hs hg
+              obtain ⟨⟨ms, ws⟩, hmem, rfl⟩ := List.mem_map.mp hs
+              obtain ⟨kw, _, hkw⟩ := mapM_ok_mem _ _ _ hstyled (ms, ws) hmem
+              obtain ⟨hk, hc⟩ := marginStyle_spec _ _ _ _ _ _ _ _ _ _ hkw
+              simp only at hk hg ⊢
+              rw [hk]; exact hc hg
+            · simp [List.map_map, Function.comp_def, clampHeight]
 
 private theorem pageStates_length (styles : List RawCStyle) (st : CState) (l : List CState)
     (h : pageStates styles st = .ok l) : l.length = styles.length := by
@@ -169,7 +224,7 @@ theorem render_sound (d : Doc) (outs : List PageOut) (h : render d = .ok outs) :
         have hlen' : outs.length = (docPages d).length := by
           rw [hlen]; simp [List.length_zip, hG, hS]
         constructor
-        · have := Paired.map_eq (R := PageOutOf (docPages d).length) (fun p => p.1.1) (fun o : PageOut => o.head)
+        · have := Paired.map_eq (R := PageOutOf d (docPages d).length) (fun p => p.1.1) (fun o : PageOut => o.head)
             (fun a b hab => hab.1) hp
           rw [this]
           have hz : ∀ {β : Type} (l2 : List β), (docPages d).length ≤ l2.length →
@@ -184,8 +239,8 @@ theorem render_sound (d : Doc) (outs : List PageOut) (h : render d = .ok outs) :
           simp [List.length_zip, hG, hS]
         · intro o ho
           obtain ⟨p, _, hpo⟩ := Paired.exists_left hp o ho
-          obtain ⟨_, hbox, hcnt, hbleed, _, hm⟩ := hpo
-          refine ⟨?_, ⟨p.2.2.1, hbox, hbleed⟩, hm⟩
+          obtain ⟨_, hbox, hcnt, hbleed, _, styles, placed, _, hm1, hm2⟩ := hpo
+          refine ⟨?_, ⟨p.2.2.1, hbox, hbleed⟩, styles, placed, hm1, hm2⟩
           rw [hcnt, hlen']
           exact (pages_counter _ _).1
 
@@ -232,6 +287,62 @@ example : (match render { ltr := true, rootBreak := .auto, fontSize := 16
     | .ok l => l.map (fun o => (o.head.blank, match counterValue o.counters "pages" with | .ok v => v | _ => (-1 : Int))) ==
         [(false, (3 : Int)), (true, 3), (false, 3)]
     | .error _ => false) = true := by decide +kernel
+
+
+private theorem zip_map_aligned {α β γ δ : Type} (l : List α) (g : List β) (f : α × β → γ) (rest : List δ) :
+    ∀ p ∈ l.zip (((l.zip g).map f).zip rest), ∃ b, p.2.1 = f (p.1, b) := by
+  intro p hp
+  obtain ⟨i, hi, rfl⟩ := List.mem_iff_getElem.mp hp
+  simp only [List.getElem_zip, List.getElem_map]
+  exact ⟨_, rfl⟩
+
+/-- **"Margin boxes are generated only when they have content", for every rendered document**: each margin box of
+each page of `render` has, in the cascade of the `@page` rules that select *that page* (its side, blankness, name,
+index and page groups) for *that margin box*, a `content` other than `normal` / `none` — `margin_box_rects` /
+`margin_boxes_generated_only` transported through `marginStyle`, the cascade (`add_page_declarations`) and the page
+types of `render`. -/
+theorem render_margin_boxes_have_content (d : Doc) (outs : List PageOut) (h : render d = .ok outs) :
+    ∀ o ∈ outs, ∀ m ∈ o.margin, ∃ gs : List Group,
+      o.groups = gs.map (fun g => (g.name, g.index)) ∧ HasContent d (pageTypeOf o.head gs) m.1.kw := by
+  unfold render at h
+  simp only [bind, Except.bind] at h
+  split at h
+  · cases h
+  · rename_i groups _
+    split at h
+    · cases h
+    · rename_i states _
+      split at h
+      · cases h
+      · have hp := render_go_spec _ _ _ _ _ _ _ h
+        intro o ho m hm
+        obtain ⟨p, hpmem, hpo⟩ := Paired.exists_left hp o ho
+        obtain ⟨hhead, _, _, _, hgroups, styles, placed, hcontent, hplaced, hmap⟩ := hpo
+        obtain ⟨gs, hgs⟩ := zip_map_aligned (docPages d) groups (fun x => pageTypeOf x.1.fst x.snd) _ p hpmem
+        have hm1 : m.1 ∈ o.margin.map (·.1) := List.mem_map_of_mem hm
+        rw [hmap] at hm1
+        obtain ⟨q, hq, hqm⟩ := List.mem_map.mp hm1
+        have hgen := (margin_box_rects _ _ _ hplaced q hq).1
+        have hkw : m.1.kw = q.kw := by rw [← hqm]; rfl
+        refine ⟨gs, ?_, ?_⟩
+        · rw [hgroups, hgs]; rfl
+        · rw [hhead, ← hgs, hkw]
+          unfold findStyle at hgen
+          split at hgen
+          · rename_i s hfind
+            have hs := List.mem_of_find?_eq_some hfind
+            have hk : s.kw = q.kw := by simpa using List.find?_some hfind
+            rw [← hk]; exact hcontent s hs hgen
+          · simp at hgen
+
+/-- Non-vacuity: one unconditional `@top-left { content: "ab" }` rule — the single page of the document has exactly
+that margin box. -/
+example : (match render { ltr := true, rootBreak := .auto, fontSize := 16
+                          sections := [{ brk := .auto, name := "", sets := [], innerSets := [], lateSets := [] }]
+                          rules := [{ origin := .author, sel := {}, pseudo := "@top-left"
+                                      decls := [("content", .content (some [.text "ab"]), false)] }] } with
+    | .ok [o] => o.margin.map (fun m => m.1.kw) == ["@top-left"]
+    | _ => false) = true := by decide +kernel
 
 /-- No `@page` rule of the document (page context or margin box) declares `name`. -/
 def NotDeclared (rules : List (PageRule Val)) (name : String) : Prop :=
